@@ -53,6 +53,7 @@ Lemma announce_of_fields_no_panic o src ih pid dl lf ul ev ipb nw port opts :
 Proof.
   unfold announce_of_fields. cbn [event_ids length].
   destruct (Z.leb_spec (Z.of_nat 4) ev) as [C|C]; [discriminate|].
+  destruct (choose_ip _ _ _) as [ip0 prov0].
   destruct (negb (o_spoof o) && _); [discriminate|].
   pose proof (handle_optional_no_panic opts) as HP.
   destruct (handle_optional opts) as [q|e|]; [|discriminate|contradiction].
@@ -124,6 +125,7 @@ Proof.
   destruct (parse_announce_total v6 o src packet C) as (ev & N & E). rewrite E in H. clear E.
   exists ev. split; [exact N|]. unfold announce_of_fields in H. cbn [event_ids length] in H.
   destruct (Z.leb_spec (Z.of_nat 4) ev) as [G|G]; [discriminate|].
+  destruct (choose_ip _ _ _) as [ip0 prov0].
   destruct (negb (o_spoof o) && _); [discriminate|].
   destruct (handle_optional _) as [q'|e|]; try discriminate.
   destruct (nth_error event_ids (Z.to_nat ev)) as [e|] eqn:NE; [|discriminate].
